@@ -279,7 +279,21 @@ pub fn cases_whist(prop: &str, tier: &str, rng: &mut Rng, stats: &mut Stats, out
     let max_len = if tier == "thorough" { 6 } else { 4 };
     for (ti, (fam, d)) in ALL13.iter().enumerate() {
         let mut g = Gen { rng, stats, max_parts: 2, max_points: 3 };
-        let a = g.ctor(fam, *d, Flavor::Special, false);
+        // every third type: `a` may carry NaN in Z / M (C01's domain), so that its ranges can be NaN
+        let a = g.ctor(fam, *d, Flavor::Special, ti % 3 == 1);
+        let a = if ti % 3 == 1 && d.has_m() {
+            // all measures NaN: the running header range stays at its sentinels
+            let nan = 0x7ff8_0000_0000_0000u64;
+            match a {
+                Ctor::Point(d, p) => Ctor::Point(d, P { m: nan, ..p }),
+                Ctor::Multipoint(d, ps) => Ctor::Multipoint(d, ps.into_iter().map(|p| P { m: nan, ..p }).collect()),
+                Ctor::Polyline(d, ps) => Ctor::Polyline(d, ps.into_iter().map(|p| P { m: nan, ..p }).collect()),
+                Ctor::PolylineParts(d, pp) => Ctor::PolylineParts(d, pp.into_iter().map(|ps| ps.into_iter().map(|p| P { m: nan, ..p }).collect()).collect()),
+                other => other,
+            }
+        } else {
+            a
+        };
         let b = g.ctor(fam, *d, Flavor::Exact, false);
         // C10: `b` is a shape of ANOTHER type
         let others: Vec<(&str, Dim)> = ALL13.iter().copied().filter(|x| x != &(*fam, *d)).collect();
